@@ -70,23 +70,52 @@ func init() {
 		})
 	}
 	subs["pk"] = func(args []string) {
+		// a returned message is printed only after the NEXT call has been made: it must still be intact then
+		// (two pickle destinations encode concurrently; a shared or recycled buffer would corrupt the earlier message)
+		var pending []byte
+		beforeCase = func() {
+			if pending != nil {
+				emit("%s", hexs(pending))
+				pending = nil
+			}
+		}
 		scanLines(func(f []string, raw string) {
 			name := unhexArg(f[0])
 			ts, _ := strconv.ParseUint(f[1], 10, 32)
 			bits, _ := strconv.ParseUint(f[2], 10, 64)
 			o := destination.Pickle(&destination.Datapoint{Name: string(name), Val: math.Float64frombits(bits), Time: uint32(ts)})
-			emit("%s", hexs(o))
+			beforeCase()
+			pending = o
 		})
 	}
 	subs["rw"] = func(args []string) {
+		// as for pk: the rewritten name is printed after the next rewrite has run (it sits in an aggregator's queue meanwhile)
+		var pending []byte
+		havePending := false
+		beforeCase = func() {
+			if havePending {
+				emit("%s", hexs(pending))
+				havePending = false
+			}
+		}
+		cache := map[string]rewriter.RW{}
 		scanLines(func(f []string, raw string) {
 			mx, _ := strconv.Atoi(f[3])
-			rw, err := rewriter.New(string(unhexArg(f[0])), string(unhexArg(f[1])), string(unhexArg(f[2])), mx)
-			if err != nil {
-				emit("err")
-				return
+			key := f[0] + " " + f[1] + " " + f[2] + " " + f[3]
+			rw, ok := cache[key]
+			if !ok {
+				var err error
+				rw, err = rewriter.New(string(unhexArg(f[0])), string(unhexArg(f[1])), string(unhexArg(f[2])), mx)
+				if err != nil {
+					beforeCase()
+					emit("err")
+					return
+				}
+				cache[key] = rw
 			}
-			emit("%s", hexs(rw.Do(unhexArg(f[4]))))
+			o := rw.Do(unhexArg(f[4]))
+			beforeCase()
+			pending, havePending = o, true
 		})
 	}
 	subs["val"] = func(args []string) {
